@@ -299,6 +299,10 @@ class Spinner:
             junk = self.get_junk()
             if junk:
                 raise StaleJunkError(junk)
+            # Each run starts without a result: do not report what a previous
+            # run on this Spinner returned or raised.
+            self._success = self._UNSET
+            self._failure = self._UNSET
             self._save_signals()
             self._timeout_call = self._reactor.callLater(
                 timeout, self._timed_out, function, timeout
